@@ -41,6 +41,7 @@ import (
 	"os/exec"
 	"path/filepath"
 	"runtime"
+	"runtime/debug"
 	"strconv"
 	"strings"
 	"sync"
@@ -667,6 +668,7 @@ func decoderCases(seed uint64, tier string) []dcase {
 		}
 	}
 	cs = append(cs, declaredSizeCases(tier)...)
+	cs = append(cs, linkCases(seed, tier)...)
 	for _, d := range yamlCases() {
 		cs = append(cs, dcase{d.reader, d.kind, d.data, d.aux})
 	}
@@ -710,6 +712,7 @@ func decoderReaders() map[string]func(c dcase) error {
 		return err
 	}
 	declSizeReaders(rs)
+	linkReaders(rs)
 	mkdir := func(c dcase) (string, error) {
 		d, err := os.MkdirTemp(tmpRoot, "doc")
 		if err != nil {
@@ -801,6 +804,12 @@ func childDecoders(from, stride int, seed uint64, tier string) {
 			}
 		}()
 		silent = true
+		// the link family: an endless chase is a recursion; a small stack limit turns it into a crash at once
+		if strings.HasPrefix(c.kind, "links/") {
+			debug.SetMaxStack(linksMaxStack)
+		} else {
+			debug.SetMaxStack(1000000000)
+		}
 		var m0, m1 runtime.MemStats
 		runtime.ReadMemStats(&m0)
 		t0 := time.Now()
